@@ -381,4 +381,6 @@ SUBS.append(Sub("boundary-counts-decode", run_decode, kind="enum", enumerate=spe
 SUBS += [Sub(f"fuzz:{t}", run_raw, kind="fuzz", fuzz_target=("spec", t, _adapter), budget=(0, 60000), shards=(1, 2),
              rule=f"Atheris/libFuzzer, library instrumented: raw bytes that the reference decoder accepts as an in-domain {t} block; "
                   "library decode vs reference decode, canonical re-encode; seeded and empty corpus") for t in specs.TYPES]
+from ..core import optimised_child_sub  # noqa: E402
+SUBS.append(optimised_child_sub("C06", ["boundary-counts-encode", "boundary-counts-decode", "header-entries"]))
 TIME_BUDGET = {"quick": 150, "thorough": 1500}
